@@ -31,10 +31,12 @@ type Thread struct {
 	ready func() bool // nil: always enabled
 	waits []chanWait  // channel operations the thread is parked on (1 for send/recv, n for select)
 	// filled by a partner that completed a rendezvous with this parked thread
-	completed int // index into waits, -1 if none
-	recvOK    bool
-	sleepTill int64 // >0: parked in Sleep until this virtual time (ns)
-	blockedAt int64 // latest virtual time at which a scheduling round found this thread disabled
+	completed   int // index into waits, -1 if none
+	recvOK      bool
+	sleepTill   int64 // >0: parked in Sleep until this virtual time (ns)
+	hbOut, hbIn int64 // race builds: clocks exchanged at unbuffered channel rendezvous
+	notStarted  bool  // AfterFunc callback thread whose timer has not fired (never enabled, not counted as live)
+	blockedAt   int64 // latest virtual time at which a scheduling round found this thread disabled
 }
 
 // Point is one recorded choice point of an execution.
@@ -83,10 +85,11 @@ type World struct {
 	doneCh    chan struct{}
 	out       Outcome
 
-	closed   map[unsafe.Pointer]struct{}
-	covered  map[string]int
+	closed   []unsafe.Pointer // channels closed in this execution (slice, not map: see race_on.go)
+	covered  []covEntry
 	stateFn  func() string
-	states   map[uint64]struct{}
+	states   hashSet
+	endSync  int64 // race builds: every thread releases into it when it ends, the driver acquires it
 	opTrace  []string
 	traceOps bool
 	userData any
@@ -100,21 +103,32 @@ var (
 )
 
 // W returns the active world or nil.
+//
+//go:norace
 func W() *World { return cur }
 
 // Active reports whether a controlled execution is running (and not being torn down).
+//
+//go:norace
 func Active() bool { return cur != nil && !cur.aborting }
 
 // Epoch returns the identifier of the current execution (0 outside executions). Shim objects compare it with the
 // epoch of their last use to drop state left over from earlier executions.
+//
+//go:norace
 func (w *World) Epoch() uint64 { return w.epoch }
 
 // Aborting reports that the execution is over and remaining threads are being unwound; shims become no-ops.
+//
+//go:norace
 func (w *World) Aborting() bool { return w.aborting }
 
+//go:norace
 func (w *World) Cur() *Thread { return w.cur }
 
 // CurrentID returns the id of the running thread (-1 outside a world).
+//
+//go:norace
 func CurrentID() int {
 	if cur == nil || cur.cur == nil {
 		return -1
@@ -123,6 +137,8 @@ func CurrentID() int {
 }
 
 // Fail records a misuse of a primitive that would crash a real program (fatal error) and ends the execution.
+//
+//go:norace
 func (w *World) Fail(msg string) {
 	if w.aborting {
 		return
@@ -134,6 +150,8 @@ func (w *World) Fail(msg string) {
 }
 
 // stopNow ends the execution from the running thread: all other threads are unwound, then the caller exits.
+//
+//go:norace
 func (w *World) stopNow() {
 	me := w.cur
 	w.teardown(me)
@@ -143,6 +161,8 @@ func (w *World) stopNow() {
 }
 
 // teardown unwinds every parked thread except `except`, one at a time.
+//
+//go:norace
 func (w *World) teardown(except *Thread) {
 	w.initiator = except
 	w.aborting = true
@@ -153,17 +173,20 @@ func (w *World) teardown(except *Thread) {
 			continue
 		}
 		w.cur = t
-		t.resume <- struct{}{}
+		t.resume <- struct{}{} // teardown hand-offs keep their happens-before edges: exploration of this execution is over
 		<-w.exited
 	}
 	w.cur = except
 }
 
+//go:norace
 func (w *World) newThread(name string, f func()) *Thread {
 	t := &Thread{ID: len(w.threads), Name: name, resume: make(chan struct{}, 1), completed: -1}
 	w.threads = append(w.threads, t)
 	go func() {
+		raceDisable()
 		<-t.resume
+		raceEnable()
 		if w.aborting {
 			t.done = true
 			w.exited <- struct{}{}
@@ -172,6 +195,7 @@ func (w *World) newThread(name string, f func()) *Thread {
 		defer func() {
 			e := recover() // nil on normal return and on Goexit
 			t.done = true
+			RaceReleaseMerge(unsafe.Pointer(&w.endSync))
 			if w.aborting {
 				// either this thread is being unwound by teardown, or it initiated the teardown itself
 				if t != w.initiator {
@@ -195,10 +219,12 @@ func (w *World) newThread(name string, f func()) *Thread {
 }
 
 // threadExit is called by a thread that finished normally.
+//
+//go:norace
 func (w *World) threadExit(t *Thread) {
 	if t == w.main {
 		for _, o := range w.threads {
-			if !o.done && !o.Daemon {
+			if !o.done && !o.Daemon && !o.notStarted {
 				w.out.LiveAtEnd++
 			}
 		}
@@ -210,8 +236,11 @@ func (w *World) threadExit(t *Thread) {
 }
 
 // Go starts a new controlled thread (the rewritten form of a go statement).
+//
+//go:norace
 func Go(f func()) { GoNamed("", f) }
 
+//go:norace
 func GoNamed(name string, f func()) *Thread {
 	w := cur
 	if w == nil {
@@ -229,6 +258,8 @@ func GoNamed(name string, f func()) *Thread {
 }
 
 // Daemon marks the calling thread as a background loop that may be alive when the main thread ends.
+//
+//go:norace
 func Daemon() {
 	if w := cur; w != nil && w.cur != nil {
 		w.cur.Daemon = true
@@ -236,6 +267,8 @@ func Daemon() {
 }
 
 // Yield is a pure scheduling point (inside polling loops and harness gates).
+//
+//go:norace
 func Yield() {
 	if w := cur; w != nil && !w.aborting {
 		w.Point("yield", nil)
@@ -244,6 +277,8 @@ func Yield() {
 
 // WaitUntil parks the calling thread until cond() holds (cond is evaluated by the scheduler; it must be side-effect
 // free). It is how harness gates are written.
+//
+//go:norace
 func WaitUntil(label string, cond func() bool) {
 	if w := cur; w != nil && !w.aborting {
 		w.Point(label, cond)
@@ -252,6 +287,8 @@ func WaitUntil(label string, cond func() bool) {
 
 // Point announces a visible operation of the running thread and parks it until the scheduler chooses it while
 // ready() holds. On return the caller is the running thread and performs the operation atomically.
+//
+//go:norace
 func (w *World) Point(label string, ready func() bool) {
 	if w.aborting {
 		return
@@ -263,8 +300,9 @@ func (w *World) Point(label string, ready func() bool) {
 	t.ready = nil
 }
 
+//go:norace
 func (t *Thread) enabled(w *World) bool {
-	if t.done {
+	if t.done || t.notStarted {
 		return false
 	}
 	if t.completed >= 0 {
@@ -281,6 +319,8 @@ func (t *Thread) enabled(w *World) bool {
 
 // schedule picks the next thread to run. Called by the running thread after it set its pending operation (or
 // finished). Returns when the caller is chosen again (never, if it finished).
+//
+//go:norace
 func (w *World) schedule() {
 	me := w.cur
 	for {
@@ -310,7 +350,7 @@ func (w *World) schedule() {
 			}
 			if t.enabled(w) {
 				en = append(en, t)
-			} else {
+			} else if !t.notStarted {
 				t.blockedAt = w.now
 			}
 		}
@@ -357,11 +397,15 @@ func (w *World) schedule() {
 			return
 		}
 		w.cur = next
+		// The hand-off is invisible to the race detector (race builds): it orders nothing in the program.
+		raceDisable()
 		next.resume <- struct{}{}
 		if me.done {
+			raceEnable()
 			return
 		}
 		<-me.resume
+		raceEnable()
 		if w.aborting {
 			runtime.Goexit()
 		}
@@ -369,6 +413,7 @@ func (w *World) schedule() {
 	}
 }
 
+//go:norace
 func (w *World) onlyDaemonsLeft() bool {
 	for _, t := range w.threads {
 		if !t.done && !t.Daemon {
@@ -378,10 +423,11 @@ func (w *World) onlyDaemonsLeft() bool {
 	return true
 }
 
+//go:norace
 func (w *World) blockedTable() []string {
 	var out []string
 	for _, t := range w.threads {
-		if t.done {
+		if t.done || t.notStarted {
 			continue
 		}
 		s := fmt.Sprintf("thread %d %s: %s", t.ID, t.Name, t.label)
@@ -394,6 +440,8 @@ func (w *World) blockedTable() []string {
 }
 
 // choose records a choice point and returns the alternative dictated by the replay prefix (default 0 beyond it).
+//
+//go:norace
 func (w *World) choose(kind byte, n int, costs []int8, label string) int {
 	pos := len(w.points)
 	c := 0
@@ -410,6 +458,8 @@ func (w *World) choose(kind byte, n int, costs []int8, label string) int {
 }
 
 // Pick is a free data choice of the harness (scenario parameters): all alternatives are explored at no cost.
+//
+//go:norace
 func Pick(n int, label string) int {
 	w := cur
 	if w == nil || n <= 1 {
@@ -420,6 +470,8 @@ func Pick(n int, label string) int {
 
 // Env is an environment answer (short read, error, dial outcome, ...): alternative 0 is the default, any other
 // costs one deviation.
+//
+//go:norace
 func Env(n int, label string) int {
 	w := cur
 	if w == nil || n <= 1 || w.aborting {
@@ -432,21 +484,88 @@ func Env(n int, label string) int {
 	return w.choose('e', n, costs, label)
 }
 
+type covEntry struct {
+	tag string
+	n   int
+}
+
 // Covered counts that the execution reached a code path the check is about (anti-vacuity evidence).
+//
+//go:norace
 func Covered(tag string) {
 	if w := cur; w != nil {
-		w.covered[tag]++
+		for i := range w.covered {
+			if w.covered[i].tag == tag {
+				w.covered[i].n++
+				return
+			}
+		}
+		w.covered = append(w.covered, covEntry{tag, 1})
+	}
+}
+
+// hashSet is a grow-only open-addressing set of non-zero 64-bit hashes. It deliberately avoids the built-in map and
+// copy: their runtime helpers report accesses to the race detector, and this structure is shared by all threads of
+// an execution without a happens-before edge the detector may see.
+type hashSet struct {
+	tab []uint64
+	n   int
+}
+
+//go:norace
+func (h *hashSet) add(k uint64) {
+	if k == 0 {
+		k = 1
+	}
+	if h.n*2 >= len(h.tab) {
+		old := h.tab
+		size := 64
+		if len(old) > 0 {
+			size = len(old) * 2
+		}
+		h.tab = make([]uint64, size)
+		h.n = 0
+		for i := 0; i < len(old); i++ {
+			if old[i] != 0 {
+				h.add(old[i])
+			}
+		}
+	}
+	mask := uint64(len(h.tab) - 1)
+	for i := k & mask; ; i = (i + 1) & mask {
+		if h.tab[i] == k {
+			return
+		}
+		if h.tab[i] == 0 {
+			h.tab[i] = k
+			h.n++
+			return
+		}
+	}
+}
+
+// each calls f for every element.
+//
+//go:norace
+func (h *hashSet) each(f func(uint64)) {
+	for _, k := range h.tab {
+		if k != 0 {
+			f(k)
+		}
 	}
 }
 
 // SetStateKey installs a function describing the harness-visible state; distinct values seen at scheduling points
 // are counted as states in the evidence.
+//
+//go:norace
 func SetStateKey(f func() string) {
 	if w := cur; w != nil {
 		w.stateFn = f
 	}
 }
 
+//go:norace
 func (w *World) noteState(next *Thread) {
 	h := uint64(14695981039346656037)
 	mix := func(s string) {
@@ -469,16 +588,19 @@ func (w *World) noteState(next *Thread) {
 	if w.stateFn != nil {
 		mix(w.stateFn())
 	}
-	w.states[h] = struct{}{}
+	w.states.add(h)
 }
 
 // SetUserData / UserData let a harness attach its per-execution observation record to the world.
+//
+//go:norace
 func SetUserData(v any) {
 	if w := cur; w != nil {
 		w.userData = v
 	}
 }
 
+//go:norace
 func UserData() any {
 	if w := cur; w != nil {
 		return w.userData
@@ -487,6 +609,8 @@ func UserData() any {
 }
 
 // Schedule returns the executed schedule as a compact string (thread ids).
+//
+//go:norace
 func (w *World) ScheduleString() string {
 	var b strings.Builder
 	for i, id := range w.trace {
@@ -500,6 +624,8 @@ func (w *World) ScheduleString() string {
 
 // Param returns the value of a scale constant of the rewritten sources (see engine/mcgen): the harness may shrink it
 // with SetParam before an exploration; by default it is the original value.
+//
+//go:norace
 func Param(name string, orig int) int {
 	if v, ok := paramOverride[name]; ok {
 		return v
@@ -512,11 +638,15 @@ var paramOverride = map[string]int{}
 // SetParam overrides a scale constant for subsequent package initialisations. Because rewritten constants become
 // package-level variables initialised once, overrides must be provided through the environment variable
 // VERIF_PARAMS ("pkg:Name=value,...") which is read at init time.
+//
+//go:norace
 func SetParam(name string, v int) { paramOverride[name] = v }
 
 // BlockedUntil returns the latest virtual time (since Base) at which the scheduler found the calling thread blocked.
 // "The call returned by its deadline plus scheduling slack" is checked as BlockedUntil() <= deadline right after the
 // call: from the deadline on the thread was runnable all the time, however late the scheduler let it run.
+//
+//go:norace
 func BlockedUntil() time.Duration {
 	if w := cur; w != nil && w.cur != nil {
 		return time.Duration(w.cur.blockedAt)
@@ -526,6 +656,8 @@ func BlockedUntil() time.Duration {
 
 // Invariant installs a predicate evaluated at every scheduling step (between two visible operations, i.e. in every
 // reachable state of the explored system); a non-empty return value ends the execution as an invariant violation.
+//
+//go:norace
 func Invariant(f func() string) {
 	if w := cur; w != nil {
 		w.invFn = f
@@ -533,11 +665,13 @@ func Invariant(f func() string) {
 }
 
 // LiveThreads returns the number of threads that have been started and have not finished.
+//
+//go:norace
 func LiveThreads() int {
 	n := 0
 	if w := cur; w != nil {
 		for _, t := range w.threads {
-			if !t.done {
+			if !t.done && !t.notStarted {
 				n++
 			}
 		}
@@ -546,6 +680,8 @@ func LiveThreads() int {
 }
 
 // LiveNamed counts live threads whose name has the given prefix.
+//
+//go:norace
 func LiveNamed(prefix string) int {
 	n := 0
 	if w := cur; w != nil {
@@ -559,6 +695,8 @@ func LiveNamed(prefix string) int {
 }
 
 // SetName names the calling thread (threads started by rewritten go statements are anonymous).
+//
+//go:norace
 func SetName(name string) {
 	if w := cur; w != nil && w.cur != nil {
 		w.cur.Name = name
@@ -574,6 +712,8 @@ type mapID struct {
 
 // Key registers a map key the first time rewritten code uses it to index a map, so that MapKeys can order keys that
 // have no natural order (pointers, interfaces) by first use — deterministic, because executions are.
+//
+//go:norace
 func Key[K comparable](k K) K {
 	w := cur
 	if w == nil {
@@ -587,6 +727,7 @@ func Key[K comparable](k K) K {
 	return k
 }
 
+//go:norace
 func (w *World) keyID(k any) int {
 	for i := range w.keyIDs {
 		if w.keyIDs[i].k == k {
@@ -599,6 +740,8 @@ func (w *World) keyID(k any) int {
 
 // MapKeys returns the keys of m in a deterministic order: natural order for strings and integers, order of first use
 // (see Key) otherwise. Go's own iteration order is random, which would make replays diverge.
+//
+//go:norace
 func MapKeys[K comparable, V any](m map[K]V) []K {
 	keys := make([]K, 0, len(m))
 	for k := range m {
